@@ -209,10 +209,10 @@ def facts : Facts := {
   allocSitesSized := 6
   typedAllocOK := true
   typedAllocSites := 6
-  decoderSkeleton := "49a2ad728a2385482e2465b2"
+  decoderSkeleton := "ccc4122215142eb0a0ebde38"
   encoderSkeleton := "5cbdaefa998ed87261c39697"
   resolverSkeleton := "c7f04d2a6c11e568bc95e877"
-  descTableSkeleton := "519afb8a5253956851c19cc0"
+  descTableSkeleton := "cbfebd4eaff63fd247cc0a76"
   topLevelUsesLimit := true
   createLocksRechecksBuildsPublishes := true
   getIsReadOnly := true
@@ -290,10 +290,8 @@ def facts : Facts := {
 --   range sd.requiredFieldIDs
 --   if !bs.test(fid) => return
 --   call bs.test
---   return i, newRequiredFieldNotSetException(lookupFieldName(sd.rt, sd.GetField(fid).Offset, sd.GetField(fid).Type.RT))
+--   return i, newRequiredFieldNotSetException(sd.GetField(fid).Name)
 --   call newRequiredFieldNotSetException
---   call lookupFieldName
---   call sd.GetField
 --   call sd.GetField
 --   if ufs != nil && ufs.Size() > 0
 --   call ufs.Size
@@ -1077,10 +1075,10 @@ def facts : Facts := {
 --   call v.UnsafeAddr
 -- descTable
 --   type structDesc: structDesc struct { rt reflect.Type // always Kind() == reflect.Struct // tmp var for direct type, need to copy to heap before using unsafe.Pointer rvPool sync.Pool maxID uint16 // protect fieldIdx fieldIdx []int // directly maps field id to Field for performance fields []*tField hasInitFunc bool // true if reflect.Type implements iInitDefault initFunc iInitDefault // need to change the data pointer when calling hasUnknownFields bool // for the _unknownFields feature unknownFieldsOffset uintptr fixedLenFieldSize int // sum of f.EncodedSize() > 0 varLenFields []int // maps to fields. list of fields that f.EncodedSize() <= 0 requiredFieldIDs []uint16 }
---   type tField: tField struct { ID uint16 Offset uintptr Type *tType Spec defs.Requiredness Default unsafe.Pointer NoCopy bool CanSkipEncodeIfNil bool CanSkipIfDefault bool }
+--   type tField: tField struct { ID uint16 Offset uintptr Type *tType Name string // Go field name, for the required-field error Spec defs.Requiredness Default unsafe.Pointer NoCopy bool CanSkipEncodeIfNil bool CanSkipIfDefault bool }
 --   type tType: tType struct { T ttype K *tType V *tType WT ttype // wiretype tNUM -> tI32 Tag defs.Tag RT reflect.Type Size int Align int // for Malloc MallocAbiType uintptr // 0 if a type contains no pointer // tmp var for reflect.Type, use `rvWithPtr` to copy-on-write // only used for newMapIter RV reflect.Value IsPointer bool // true if t.Tag == defs.T_pointer SimpleType bool // true if simpleTypes[t.T] FixedSize int // typeToSize[t.T] // for tSTRUCT Sd *structDesc // for tLIST, tSET, tMAP, tSTRUCT EncodedSizeFunc func(p unsafe.Pointer) (int, error) AppendFunc appendFuncType // tMAP only MapTmpVarsPool *sync.Pool // for decoder tmp vars }
 --   structDesc.fromDefsFields: func (d *structDesc) fromDefsFields(ff []defs.Field) { maxFieldID := uint16(0) for _, f := range ff { if f.ID > maxFieldID { maxFieldID = f.ID } } d.maxID = maxFieldID d.fieldIdx = make([]int, int(maxFieldID)+1) for i := range d.fieldIdx { d.fieldIdx[i] = -1 } fields := make([]tField, len(ff)) d.fields = make([]*tField, len(ff)) for i, f := range ff { d.fields[i] = &fields[i] d.fields[i].fromDefsField(f) d.fieldIdx[f.ID] = i } d.varLenFields = make([]int, 0, len(ff)) d.requiredFieldIDs = make([]uint16, 0, len(ff)) for i, f := range d.fields { if n := f.EncodedSize(); n > 0 { d.fixedLenFieldSize += n } else { d.varLenFields = append(d.varLenFields, i) } if f.Spec == defs.Required { d.requiredFieldIDs = append(d.requiredFieldIDs, f.ID) } } }
---   tField.fromDefsField: func (f *tField) fromDefsField(x defs.Field) { f.ID = x.ID f.Offset = uintptr(x.F) f.Type = newTType(x.Type) f.Spec = x.Spec t := f.Type f.NoCopy = (x.Opts & defs.NoCopy) != 0 if f.NoCopy && f.Type.WT != tSTRING { panic("[BUG] nocopy on non-STRING type") } f.CanSkipEncodeIfNil = f.Spec == defs.Optional && (t.Tag == defs.T_pointer || t.Tag == defs.T_binary || containerTypes[t.T]) v := x.Default for v.Kind() == reflect.Ptr { v = v.Elem() } if !v.IsValid() { return } f.Default = unsafe.Pointer(v.UnsafeAddr()) f.CanSkipIfDefault = (f.Spec == defs.Optional) && t.Tag != defs.T_pointer && f.Default != nil }
+--   tField.fromDefsField: func (f *tField) fromDefsField(x defs.Field) { f.ID = x.ID f.Name = x.Name f.Offset = uintptr(x.F) f.Type = newTType(x.Type) f.Spec = x.Spec t := f.Type f.NoCopy = (x.Opts & defs.NoCopy) != 0 if f.NoCopy && f.Type.WT != tSTRING { panic("[BUG] nocopy on non-STRING type") } f.CanSkipEncodeIfNil = f.Spec == defs.Optional && (t.Tag == defs.T_pointer || t.Tag == defs.T_binary || containerTypes[t.T]) v := x.Default for v.Kind() == reflect.Ptr { v = v.Elem() } if !v.IsValid() { return } f.Default = unsafe.Pointer(v.UnsafeAddr()) f.CanSkipIfDefault = (f.Spec == defs.Optional) && t.Tag != defs.T_pointer && f.Default != nil }
 --   structDesc.GetField: func (d *structDesc) GetField(fid uint16) *tField { if fid > d.maxID { return nil } i := d.fieldIdx[fid] if i < 0 { return nil } return d.fields[i] }
 --   newTType: func newTType(x *defs.Type) *tType { k := ttypesK{T: x.String(), S: x.S} if t := ttypes[k]; t != nil { return t } t := &tType{} ttypes[k] = t t.T = ttype(x.Tag()) t.WT = t.T t.Tag = x.T if x.IsEnum() { t.T = tENUM } t.RT = x.S t.Size = int(x.S.Size()) t.Align = x.S.Align() switch t.RT.Kind() { case reflect.Array, reflect.Map, reflect.Ptr, reflect.Slice, reflect.String, reflect.Struct: t.MallocAbiType = rtTypePtr(t.RT) } if t.T == tMAP { t.RV = reflect.New(t.RT) t.RV = t.RV.Elem() t.MapTmpVarsPool = initOrGetMapTmpVarsPool(t) } t.IsPointer = t.Tag == defs.T_pointer t.SimpleType = simpleTypes[t.T] t.FixedSize = int(typeToSize[t.T]) switch t.T { case tMAP: t.EncodedSizeFunc = t.encodedMapSize case tLIST, tSET: t.EncodedSizeFunc = t.encodedListSize case tSTRUCT: t.EncodedSizeFunc = t.EncodedSize } if x.K != nil { t.K = newTType(x.K) } if x.V != nil { t.V = newTType(x.V) } switch t.T { case tLIST, tSET: updateListAppendFunc(t) case tMAP: updateMapAppendFunc(t) case tSTRUCT: t.AppendFunc = appendStruct default: t.AppendFunc = appendAny } if t.IsPointer && t.V.IsPointer { panic("doesn't support multilevel pointers like **p") } return t }
 -/
